@@ -5,7 +5,7 @@ FRAGS = [
     "<", ">", "&", '"', "'", "]]>", "<!--", "-->", "&amp;", "&#60;", "&lt;", "&gt;", "&quot;", "&apos;", "&#x41;",
     "<![CDATA[x]]>", '<output value="/data/x"/>', "<b>bold</b>", "</label>", "<label>", "<?pi x?>", "{", "}", "$", "$ {",
     "}}", "{x}", "a<b", "a>b", "1 < 2 & 3 > 2", "x=\"1\"", "x='1'", "&&", "&;", "&#;", "&#xZZ;", "%s", "%(name)s", "\\", "\\n",
-    "#", "##", "| ", "\u00e9", "\u00fc", "\u05d0\u05d1", "\u0645\u0631\u062d\u0628\u0627", "\U0001F600", "\U0001D4B3", "a\u0301",
+    "#", "##", "| ", "\u00e9", "\u00fc", "\u05d0\u05d1", "\u0645\u0631\u062d\u0628\u0627", "\U0001F600", "\U0001D4B3", "a\u0301", "\U000F0000", "\U0010FFFD", "\U000E0041", "\ud7ff\ue000\ufffd", "\u0085", "\u007f",
     "\u200f", "\u00a0", "\u2019", "\u201c", "\u2028", "\ufeff",
     "_x0041_", "_x000B_", "_x003C_b_x003E_", "_x000D_", "_x005F_",  # OOXML's character-escape syntax typed as ordinary text
     "jr:itext('x')", "instance('x')/root", "..", "../x", "/data/x", "*", "+", "-", "a - b", "a-b", "(", ")", "[", "]", "[1]",
